@@ -376,6 +376,8 @@ pub mod optimized;
 pub mod retry;
 pub mod transport;
 pub mod v1_mime;
+#[cfg(all(feature = "verif-hooks", not(target_arch = "wasm32")))]
+pub mod verif_hooks;
 
 // Re-export main types
 pub use cdn::{CdnClient, CdnEndpoint, ContentType};
